@@ -339,7 +339,10 @@ func runExpr(c Case, res *pbt.Result) {
 	for i, r := range c.Rows {
 		ec := &evalCtx{row: r}
 		v := ec.eval(c.Expr)
-		exps[i] = exp{v: v, weak: ec.sawErr || ill, why: ec.why}
+		exps[i] = exp{v: v, weak: ec.sawErr || ill || (ec.negZero && ec.diffFn), why: ec.why}
+		if ec.negZero && ec.diffFn {
+			res.Count("weak-rows-negzero", 1)
+		}
 		if ec.sawErr && !ill {
 			res.Count("weak-rows", 1)
 			if ec.why == "division by zero" {
